@@ -78,12 +78,34 @@ def netCmd (j : Json) : Except String Json := do
   let mut out : Array Json := #[]
   for pt in pts do
     let σ ← parsePoint pt
-    match solve I c σ fuel with
+    match solve I c (fun _ => []) σ fuel with
     | some (tbl, ds) =>
       out := out.push (Json.mkObj [
         ("vals", Json.mkObj (tbl.map (fun (p, v) => (pathStr p, jRat v)))),
         ("dy", Json.mkObj (ds.map (fun (p, v) => (pathStr p, jRat v))))])
     | none => out := out.push (Json.mkObj [("error", "unresolved")])
   return Json.mkObj [("results", Json.arr out)]
+
+/-- {"nodes":..,"edges":..,"init":{path:q},"dt":q,"steps":n,"heun":b,"fuel":n,"interp":{..},
+     "inputs":[{"tgt":[n,o,v],"samples":[q..]}]} → {"rows":[{path:q}]} (state before each step) -/
+def netTrajCmd (j : Json) : Except String Json := do
+  let c ← parseCircuit j
+  let I ← parseInterp j
+  let fuel ← getNat (← field j "fuel")
+  let dt ← getRat (← field j "dt")
+  let steps ← getNat (← field j "steps")
+  let heun ← (← field j "heun").getBool?
+  let initKV ← (← field j "init").getObj?
+  let initL ← initKV.toList.mapM (fun (k, v) => do pure (k, ← getRat v))
+  let σ0 : List (Path × Rat) := c.stateEqs.map (fun (p, _, _, _) =>
+    (p, match initL.find? (·.1 == pathStr p) with | some x => x.2 | none => 0))
+  let inputs ← match fieldOpt j "inputs" with
+    | some (.arr a) => a.toList.mapM (fun x => do pure (← parsePath (← field x "tgt"), ← getVec (← field x "samples")))
+    | _ => pure []
+  let extAt : Nat → Path → List Rat := fun k p =>
+    (inputs.filter (fun i => i.1 == p)).map (fun i => i.2.getD k 0)
+  match trajectory I c extAt fuel heun dt steps 0 σ0 with
+  | some rows => return Json.mkObj [("rows", Json.arr (rows.map (fun r => Json.mkObj (r.map (fun (p, v) => (pathStr p, jRat v))))).toArray)]
+  | none => return Json.mkObj [("error", "unresolved")]
 
 end PyRates.Driver
